@@ -45,6 +45,9 @@ QQ_FILTER = [dict(base([{"sender": "s@rem.example", "rcpts": ["joe@loc.example",
 
 def run(ctx):
     q.search(ctx, "C03", TAGS, 0, 0, fixed=QQ_FILTER)
+    # every single allocation of the daemon failing once (out of memory is a transient failure like any other): the daemon is built to sleep
+    # and go on; it may leave a job open until its next start, so only the safety core is judged - no recipient dropped, no bounce lost
+    q.search(ctx, "C03", TAGS, 0, 0, sweep={"all": True, "faults_only": True, "fault_classes": ["malloc"], "malloc": True, "tags": ["C03-drop"]}, fixed=FULLY_SWEPT)
     q.search(ctx, "C03", TAGS, 0, 0, sweep={"all": True}, fixed=FULLY_SWEPT)
     q.search(ctx, "C03", TAGS, 14, 260, sweep={"crash": 6, "fault": 5})
     if not ctx.quick:
